@@ -52,6 +52,9 @@ def run(prop, tier, seed, work, ev):
     c = work.path("errchars.cases")
     eng_lang.gen(work, "chars", c, t["chars"], alpha="err")
     rejects += eng_lang.run_and_judge("compile failures among all strings <= %d over the error alphabet" % t["chars"], c, work, ev, drv, "C12")
+    c = work.path("uni.cases")
+    eng_lang.gen(work, "uni", c, 0)
+    rejects += eng_lang.run_and_judge("compile failures among the Unicode class probes (byte order mark, blanks, digits of other scripts)", c, work, ev, drv, "C12")
     c = work.path("rtext.cases")
     subprocess.check_call([drv, "gen", "lang-text", str(seed + 12), str(t["rtext"]), c], env=dict(os.environ, GEN_MAXLEN="20"))
     rejects += eng_lang.run_and_judge("compile failures among random mutated texts", c, work, ev, drv, "C12")
